@@ -652,7 +652,7 @@ class Output(object):
         # A script given as bytes is a raw script: never guess that it is hexadecimal text
         self.lock_script = b'' if lock_script is None else \
             (lock_script if isinstance(lock_script, bytes) else to_bytes(lock_script))
-        self.public_hash = to_bytes(public_hash)
+        self.public_hash = public_hash if isinstance(public_hash, bytes) else to_bytes(public_hash)
         if isinstance(address, Address):
             self._address = address.address
             self._address_obj = address
@@ -667,7 +667,7 @@ class Output(object):
         else:
             self._address = address
             self._address_obj = None
-        self.public_key = to_bytes(public_key)
+        self.public_key = public_key if isinstance(public_key, bytes) else to_bytes(public_key)
         self.compressed = True
         self.versionbyte = self.network.prefix_address
         self.script_type = script_type
